@@ -50,24 +50,24 @@ Proof.
 Qed.
 
 Lemma from_cons1 (c : byte) l : from (c :: l) 1 = l.
-Proof. reflexivity. Qed.
+Proof. rewrite from_eq. reflexivity. Qed.
 
 Lemma from_nonneg_cons (c : byte) l k : 0 <= k -> from (c :: l) (1 + k) = from l k.
 Proof.
-  intros Hk. unfold from. replace (Z.to_nat (1 + k)) with (S (Z.to_nat k)) by lia. reflexivity.
+  intros Hk. rewrite !from_eq. replace (Z.to_nat (1 + k)) with (S (Z.to_nat k)) by lia. reflexivity.
 Qed.
 
 Lemma rd_from m p b t : 0 <= p -> from m p = b :: t -> rd m p = Ok b.
 Proof.
-  intros Hp H. unfold rd. replace (p <? 0) with false by (symmetry; apply Z.ltb_ge; lia).
-  unfold from in H. revert m H. generalize (Z.to_nat p) as n.
+  intros Hp H. rewrite rd_eq. replace (p <? 0) with false by (symmetry; apply Z.ltb_ge; lia).
+  rewrite from_eq in H. revert m H. generalize (Z.to_nat p) as n.
   induction n as [|n IH]; intros m H; destruct m as [|x m]; cbn [skipn nth_error] in *; try discriminate.
   - inversion H; reflexivity.
   - apply IH. exact H.
 Qed.
 
 Lemma from_step m p b t : 0 <= p -> from m p = b :: t -> from m (p + 1) = t.
-Proof. intros Hp H. rewrite from_add by lia. rewrite H. reflexivity. Qed.
+Proof. intros Hp H. rewrite from_add by lia. rewrite H. apply from_cons1. Qed.
 
 Lemma rd32_from m p x t : 0 <= p -> 0 <= x < 4294967296 ->
   from m p = be32 x ++ t -> rd32 m p = Ok x.
@@ -362,4 +362,102 @@ Proof.
               destruct pl as [b|b|s|len d]; try discriminate;
               cbn [map fst]; f_equal; apply IH; assumption).
     cbn [map fst]. f_equal. apply IH; assumption.
+Qed.
+
+(* ---- argument by index ---------------------------------------------------- *)
+Definition val_of_payload (pl : payload) (o : Z) : argval :=
+  match pl with
+  | P4 b => V4 b | P8 b => V8 b | PStr _ => VStr o | PBlob len _ => VBlob len (o + 4)
+  end.
+
+Lemma arg_off_go_skip m tags idx p :
+  arg_off_go m (skip_brackets tags) idx p = arg_off_go m tags idx p.
+Proof.
+  induction tags as [|t ts IH]; [reflexivity|].
+  cbn [skip_brackets]. destruct (is_bracket t) eqn:B; [|reflexivity].
+  rewrite IH. cbn [arg_off_go]. rewrite B.
+  destruct (idx <=? 0) eqn:E; [|reflexivity].
+  destruct ts; cbn [arg_off_go]; rewrite E; reflexivity.
+Qed.
+
+(* the idx-th decoded item, the offset arg_off_go reaches, and what lies there *)
+Lemma arg_off_go_enc m tags : forall args p rest idx,
+  0 <= p -> args_match tags args = true -> Forall payload_rd_wf args ->
+  from m p = concat (map enc_payload args) ++ rest ->
+  0 <= idx < count_nonbracket tags ->
+  exists t v, nth_error (dec_spec tags args p) (Z.to_nat idx) = Some (t, v) /\
+              type_in tags (Z.to_nat idx) = t /\
+              (kind_of t = K0 -> v = const_val t) /\
+              (kind_of t <> K0 ->
+               exists o, arg_off_go m tags idx p = Ok o /\ extract_arg m o t = Ok v).
+Proof.
+  induction tags as [|t ts IH]; intros args p rest idx Hp Hm Hw H Hi.
+  - cbn [count_nonbracket] in Hi. lia.
+  - cbn [count_nonbracket dec_spec type_in arg_off_go] in *. destruct (is_bracket t) eqn:B.
+    + cbn [args_match] in Hm. rewrite (bracket_K0 t B) in Hm.
+      destruct (IH args p rest idx Hp Hm Hw H ltac:(lia)) as (t' & v & Hn & Ht & Hk0 & Hk).
+      exists t', v. repeat split; try assumption.
+      intros Hne. destruct (Hk Hne) as (o & Ho & He). exists o. split; [|assumption].
+      destruct (idx <=? 0) eqn:E; [|assumption].
+      apply Z.leb_le in E. assert (idx = 0) by lia. subst idx.
+      destruct ts; cbn [arg_off_go] in Ho |- *; exact Ho.
+    + cbn [args_match] in Hm.
+      destruct (Z.eq_dec idx 0) as [E0|E0].
+      * subst idx. cbn [Z.to_nat]. change (0 <=? 0) with true. cbn iota.
+        destruct (kind_of t) eqn:K.
+        all: try (destruct args as [|pl ps]; [discriminate|];
+                  apply andb_prop in Hm as [Hf Hm]; rewrite <- K in Hf;
+                  inversion Hw as [|? ? Hw1 Hw2]; subst;
+                  cbn [map concat] in H; rewrite <- app_assoc in H;
+                  exists t, (val_of_payload pl p); split;
+                  [rewrite K in Hf; destruct pl; try discriminate; reflexivity|];
+                  split; [reflexivity|]; split; [intros HH; rewrite K in HH; discriminate|];
+                  intros _; exists p; split; [reflexivity|];
+                  rewrite (extract_arg_enc m p t pl _ Hp Hw1 Hf H); destruct pl; reflexivity).
+        exists t, (const_val t). split; [reflexivity|]. split; [reflexivity|].
+        split; [reflexivity|]. intros Hne; congruence.
+      * replace (idx <=? 0) with false by (symmetry; apply Z.leb_gt; lia).
+        replace (Z.to_nat idx) with (S (Z.to_nat (idx - 1))) by lia.
+        destruct (kind_of t) eqn:K.
+        all: try (destruct args as [|pl ps]; [discriminate|];
+                  apply andb_prop in Hm as [Hf Hm]; rewrite <- K in Hf;
+                  inversion Hw as [|? ? Hw1 Hw2]; subst;
+                  cbn [map concat] in H; rewrite <- app_assoc in H;
+                  rewrite (arg_size_enc m p t pl _ Hp Hw1 Hf H); cbn [bind];
+                  pose proof (from_skip m p _ _ Hp H) as Hnext;
+                  pose proof (zlen_nonneg (enc_payload pl));
+                  destruct (IH ps (p + zlen (enc_payload pl)) rest (idx - 1) ltac:(lia) Hm Hw2 Hnext ltac:(lia))
+                    as (t' & v & Hn & Ht & Hk0 & Hk);
+                  exists t', v; rewrite K in Hf;
+                  destruct pl as [b|b|s|len d]; try discriminate; cbn [nth_error];
+                  repeat split; assumption).
+        unfold arg_size. rewrite K. cbn [bind]. replace (p + 0) with p by lia.
+        destruct (IH args p rest (idx - 1) Hp Hm Hw H ltac:(lia)) as (t' & v & Hn & Ht & Hk0 & Hk).
+        exists t', v. cbn [nth_error]. repeat split; assumption.
+Qed.
+
+Theorem argument_enc a tags args rest idx :
+  msg_wf a tags args -> 0 <= idx < count_nonbracket tags ->
+  exists t v, nth_error (dec_spec tags args (args_off a tags)) (Z.to_nat idx) = Some (t, v) /\
+              type_at (enc_spec a tags args ++ rest) idx = Ok t /\
+              argument (enc_spec a tags args ++ rest) idx = Ok v.
+Proof.
+  intros WF Hi.
+  assert (Hp : 0 <= args_off a tags).
+  { unfold args_off, align4. pose proof (zlen_nonneg a). pose proof (zlen_nonneg tags). lia. }
+  destruct (arg_off_go_enc (enc_spec a tags args ++ rest) tags args (args_off a tags) rest idx
+              Hp (wf_match _ _ _ WF) (wf_args _ _ _ WF) (from_args a tags args rest) Hi)
+    as (t & v & Hn & Ht & Hk0 & Hk).
+  exists t, v. split; [assumption|].
+  rewrite (type_at_enc a tags args rest WF). split; [rewrite Ht; reflexivity|].
+  unfold argument, arg_off. rewrite (type_at_enc a tags args rest WF). cbn [bind]. rewrite Ht.
+  unfold has_reserved. destruct (kind_of t) eqn:K.
+  all: try (change (1 =? 0) with false; cbn iota;
+            rewrite (arg_string_enc a tags args rest WF); cbn [bind];
+            rewrite (tags_enc a tags args rest WF); cbn [bind];
+            rewrite (arg_start_enc a tags args rest WF); cbn [bind];
+            rewrite arg_off_go_skip;
+            destruct (Hk ltac:(congruence)) as (o & -> & He); cbn [bind]; exact He).
+  change (0 =? 0) with true. cbn iota. cbn [bind].
+  rewrite (Hk0 eq_refl). unfold extract_arg. rewrite K. reflexivity.
 Qed.
